@@ -137,9 +137,11 @@ def resolve_hrefs(element, xmlids):
             continue # don't need to resolve this element
 
         elif e.get('href'):
-            resolved_element = xmlids[e.get('href').replace('#', '')]
+            resolved_element = xmlids.get(e.get('href').replace('#', ''))
             if resolved_element is None:
-                continue
+                # a reference to an id that no element of the document has
+                raise Fault('Client.SoapError', "The href %r does not point "
+                                  "to any element" % (e.get('href'),))
             resolve_hrefs(resolved_element, xmlids)
 
             # copies the attributes
